@@ -335,7 +335,8 @@ func init() {
 			pf := &Profile{Kinds: allKinds, QKinds: memQKinds, MaxQueues: 2, Concs: []int{1, 2, 3}, MinClients: 1, MaxClients: 2, MaxOps: scale(th, 8, 14),
 				Ops:     map[string]int{"add": 40, "addmany": 10, "release": 5, "yield": 5, "sleep": 3},
 				Ctrl:    map[string]int{"pause": 4, "pausewait": 8, "resume": 8, "stop": 4, "waitstop": 2, "restart": 4, "settle": 3},
-				MaxCtrl: scale(th, 6, 12), GatedProb: 25, MaxBatch: 4, Prios: []int{0, 1, 1, 2}}
+				MaxCtrl: scale(th, 6, 12), GatedProb: 25, MaxBatch: 4, Prios: []int{0, 1, 1, 2},
+				SchedKinds: []string{"dev", "pct", "pct", "pctl", "pctl", "rw"}}
 			return genProgram(t, "C09", pf, th)
 		},
 		Oracles: []oracleFn{oC09, oC04},
